@@ -49,6 +49,7 @@ struct AU {
     T (*impl)(T);
     T (*ref)(T);
     hi_t<T> (*ref_hi)(hi_t<T>);
+    bool (*skip)(T){nullptr}; // arguments left out of the lattice / grid sweeps (still part of the boundary-set sweeps)
 };
 template <typename T>
 struct AB {
@@ -95,6 +96,15 @@ std::vector<AU<T>> unary_subjects()
     // separately callable function; only the entry point is swept
     v.push_back({cat("etl::log10(", tn, ")"), "log10", [](T x) -> T { return etl::log10(x); }, [](T x) -> T { return std::log10(x); },
         [](H x) -> H { return std::log10(x); }});
+    // gcem::tgamma recurses once per unit for negative arguments (tgamma(x) = tgamma(x+1)/x): a call
+    // costs |x| steps and overflows the stack beyond about -2.6e5.  The boundary sets keep such
+    // arguments (that is where the crash is found and reported); the dense sweeps leave out the
+    // negative non-integral values below -1024, otherwise one job would need hours.
+    for (auto& u : v) {
+        if (u.shortname == "tgamma" || u.shortname == "cx-tgamma") {
+            u.skip = [](T x) { return x < T(-1024) && x > -std::ldexp(T(1), FT<T>::mant); };
+        }
+    }
     return v;
 }
 
@@ -260,6 +270,10 @@ void sweep_lattice(mc::Reporter& r, AU<float> const& u, int q, int sign_lo, int 
                             cur           = fb(b);
                             float const x = cur;
                             int const rid = region_id(x);
+                            if (u.skip != nullptr && u.skip(x)) {
+                                ++a.skipped;
+                                continue;
+                            }
                             if (a.abandoned[rid]) {
                                 ++a.skipped_after_trap;
                                 continue;
@@ -294,7 +308,7 @@ void sweep_lattice(mc::Reporter& r, AU<float> const& u, int q, int sign_lo, int 
 }
 
 template <typename T>
-void sweep_values(mc::Reporter& r, AU<T> const& u, std::vector<T> const& values)
+void sweep_values(mc::Reporter& r, AU<T> const& u, std::vector<T> const& values, bool dense)
 {
     std::string const subject = strip_args(u.call);
     if (!r.want(subject)) { return; }
@@ -314,6 +328,10 @@ void sweep_values(mc::Reporter& r, AU<T> const& u, std::vector<T> const& values)
                 cur           = values[i];
                 T const x     = cur;
                 int const rid = region_id(x);
+                if (dense && u.skip != nullptr && u.skip(x)) {
+                    ++a.skipped;
+                    continue;
+                }
                 if (a.abandoned[rid]) {
                     ++a.skipped_after_trap;
                     continue;
@@ -447,7 +465,7 @@ int main(int argc, char** argv)
     m.job("f32/B32", {"quick", "thorough"}, [](mc::Reporter& r) {
         auto const B = make_boundary<float>();
         r.count("configurations", 1);
-        for (auto const& u : u32s) { sweep_values(r, u, B); }
+        for (auto const& u : u32s) { sweep_values(r, u, B, false); }
     });
     for (std::size_t i = 0; i < b32s.size(); ++i) {
         m.job(cat("f32/binary/", b32s[i].shortname), {"quick", "thorough"}, [i](mc::Reporter& r) {
@@ -476,7 +494,7 @@ int main(int argc, char** argv)
     m.job("f64/B64", {"quick", "thorough"}, [](mc::Reporter& r) {
         auto const B = make_boundary<double>();
         r.count("configurations", 1);
-        for (auto const& u : u64s) { sweep_values(r, u, B); }
+        for (auto const& u : u64s) { sweep_values(r, u, B, false); }
     });
     for (std::size_t i = 0; i < b64s.size(); ++i) {
         m.job(cat("f64/binary/", b64s[i].shortname), {"quick", "thorough"}, [i](mc::Reporter& r) {
@@ -488,7 +506,7 @@ int main(int argc, char** argv)
     for (std::size_t i = 0; i < u64s.size(); ++i) {
         m.job(cat("f64/G64/", u64s[i].shortname), {"quick", "thorough"}, [i](mc::Reporter& r) {
             r.count("configurations", 1);
-            sweep_values(r, u64s[i], grid64_small());
+            sweep_values(r, u64s[i], grid64_small(), true);
         });
     }
     #endif
